@@ -22,8 +22,8 @@ def P(pid, rules, explanation, not_decided, assumptions=(), design="3"):
                           assumptions=list(assumptions), design=f"DESIGN.md section {design}")
 
 
-P("C01", ["IDX", "RETRY", "SIGN", "FREE", "CPFORM", "ARGNAME", "DIRECTION", "RATIOFORM", "PGFORM", "SUBFORM", "SHARED", "GETB", "SF4", "ESC"],
-  "(SF4, ESC) the wrapper hands out a new array for every gradient, never its memo or the user's own buffer, so the stored gradients stay distinct objects (otherwise y = 0 and the solver stalls); (GETB) the box the solver works in is the caller's box (a side becomes infinite only when it is None); (SHARED, conservative) the kernels keep no module-level state between calls, so an iteration depends on this run only; Structural necessary conditions of C01, decided on every path of the source: (IDX) index-space typing of "
+P("C01", ["IDX", "RETRY", "SIGN", "FREE", "CPFORM", "ARGNAME", "DIRECTION", "RATIOFORM", "PGFORM", "SUBFORM", "SHARED", "GETB", "SF4", "ESC", "BPWALK"],
+  "(BPWALK) the breakpoint walk skips variables already on a bound, stops as soon as the segment holds its minimiser and examines the breakpoints in sorted order; (SF4, ESC) the wrapper hands out a new array for every gradient, never its memo or the user's own buffer, so the stored gradients stay distinct objects (otherwise y = 0 and the solver stalls); (GETB) the box the solver works in is the caller's box (a side becomes infinite only when it is None); (SHARED, conservative) the kernels keep no module-level state between calls, so an iteration depends on this run only; Structural necessary conditions of C01, decided on every path of the source: (IDX) index-space typing of "
   "get_cauchy_point shows the sorted breakpoint list is filtered and walked in its own rank space, so variables "
   "resting on a bound with the gradient pushing outward (t = 0) cannot scramble the breakpoint order -- the "
   "defect behind the stalls the property names; (RETRY) a failed line search aborts only after a retry from a "
@@ -85,8 +85,8 @@ P("C07", ["ESC", "NITOFF", "SIB", "CBUSE", "CNT", "FIELDS", "ORIENT", "DOWNHILL"
   "restored into the wrapper from the right fields before any evaluation, (FIELDS) writer/reader field agreement, "
   "(ORIENT) the history decoder inverts the encoder.",
   "numerical equality of the continuation with the uninterrupted run", design="3/C07")
-P("C08", ["IDX", "SIGN", "PIN", "CPFORM", "RATIOFORM", "BFGSFORM", "OWN", "INVMFORM"],
-  "(INVMFORM) the factors of the middle matrix are computed from D, L, S'S, theta by exact algebra (no floor or clamp); (BFGSFORM) the model handed to the kernel is the consistent compact form, (OWN) the kernel does not write the model it is given; (IDX) index-space typing of the breakpoint bookkeeping (the property's named defect); (SIGN) breakpoints "
+P("C08", ["IDX", "SIGN", "PIN", "CPFORM", "RATIOFORM", "BFGSFORM", "OWN", "INVMFORM", "BPWALK"],
+  "(BPWALK) the breakpoint walk skips variables already on a bound, stops as soon as the segment holds its minimiser and examines the breakpoints in sorted order; (INVMFORM) the factors of the middle matrix are computed from D, L, S'S, theta by exact algebra (no floor or clamp); (BFGSFORM) the model handed to the kernel is the consistent compact form, (OWN) the kernel does not write the model it is given; (IDX) index-space typing of the breakpoint bookkeeping (the property's named defect); (SIGN) breakpoints "
   "t >= 0 on both branches, pinned bound on the side of d, f' <= 0, f'' >= 0 at their definitions; (PIN) "
   "variables reaching a bound are pinned by copying the bound, not by arithmetic; (CPFORM) the initialisation, "
   "the per-breakpoint updates of c, f', f'', p, dt_min and the final segment are symbolically executed into a "
